@@ -47,9 +47,14 @@ def build(repo, findings):
     u.add(a)
     fn = 'declaration_lookup'
     b = dc.slice('process_declaration', r'^\s*let lookup = if ', r'^\s*let lookup = if ',
-                 'fn declaration_lookup(create_var_local: bool, verb: DeclareVerb) -> EnvironmentLookup', fn)
-    b.r1().resub(r'\n\}$', '\n    lookup\n}', 'R6', 'wrapper epilogue returning the live variable', count=1)
-    b.sig(fn, ret='r', ensures=[C('C09 a-declaration-that-creates-a-local-looks-only-at-the-current-functions-locals', 'if create_var_local { r is OnlyInCurrentLocal } else { r is Anywhere }')])
+                 'fn declaration_lookup(self_: &DeclareCommand, create_var_local: bool, verb: DeclareVerb) -> EnvironmentLookup', fn)
+    b.r1().resub(r'\bself\.', 'self_.', 'R6', 'slice wrapper: self -> self_', count=None)
+    b.resub(r'\n\}$', '\n    lookup\n}', 'R6', 'wrapper epilogue returning the live variable', count=1)
+    b.sig(fn, ret='r', ensures=[
+        C('C09 a-declaration-that-creates-a-local-looks-only-at-the-current-functions-locals', 'create_var_local ==> r is OnlyInCurrentLocal'),
+        C('C09 declare-g-names-the-global-variable-whatever-locals-are-in-scope', '(!create_var_local && self_.create_global) ==> r is OnlyInGlobal'),
+        C('C09 otherwise-the-visible-variable', '(!create_var_local && !self_.create_global) ==> r is Anywhere'),
+    ])
     u.add(b)
     u.raw(FOOTER)
     u.assume('external_body', 'ShellValue::is_set, Shell::in_function are stubs with uninterpreted results; Error opaque')
